@@ -2,11 +2,12 @@
 # tools/try_seed.sh <seed-dir> <prop> [<prop>...]  -- apply a seeded change to /repo, run the quick checks, undo it
 d="$1"; shift
 cd /repo || exit 2
-if ! git diff --quiet; then echo "/repo not clean"; exit 2; fi
-if ! git apply --3way "$d/patch.diff" 2>/dev/null && ! git apply "$d/patch.diff" 2>/dev/null && ! patch -p1 -s -F3 < "$d/patch.diff"; then echo "PATCH DOES NOT APPLY: $d"; git checkout -q -- . ; git reset -q; exit 3; fi
-git reset -q
+if [ -n "$(git status --porcelain)" ]; then echo "/repo not clean"; exit 2; fi
+if git apply --check "$d/patch.diff" 2>/dev/null; then git apply "$d/patch.diff"
+elif patch -p1 -s -F3 --dry-run < "$d/patch.diff" >/dev/null 2>&1; then patch -p1 -s -F3 < "$d/patch.diff"
+else echo "PATCH DOES NOT APPLY: $d"; exit 3; fi
 for p in "$@"; do
   (cd /verif && ./check "$p" --tier quick 2>&1 | grep -E "VIOLATION|\] ok|KNOWN|violation" | head -3)
 done
-git checkout -q -- . ; git clean -fdq pyplate 2>/dev/null
-git diff --quiet && echo "(repo restored)"
+git reset -q --hard HEAD; git clean -fdq
+[ -z "$(git status --porcelain)" ] && echo "(repo restored)"
